@@ -195,7 +195,9 @@ def expected_shape(t, expr):
     if kind == "mux":
         return unify([t[2], t[3]])
     if kind == "array":
-        return unify(t[2])
+        # elements the index cannot reach are dropped when the proxy is lowered; the documented
+        # shape (that of the equivalent mux tree) is pinned down only when all are reachable
+        return unify(t[2]) if len(t[2]) <= (1 << t[1]) else None
     if kind == "switchvalue":
         return unify(t[3])
     if kind == "abs":
@@ -214,6 +216,14 @@ def expected_shape(t, expr):
         return (t[1][0] * t[2], False)
     if kind == "matches":
         return (1, False)
+    return None
+
+
+def precondition(t):
+    """Restriction of the operand values under which the template's meaning is specified."""
+    if t[0] == "array":
+        n = len(t[2])
+        return lambda i, *vs: i < n          # only in-range indexing is specified (C01)
     return None
 
 
